@@ -66,10 +66,17 @@ type Scheduler struct {
 	Exhausted bool
 	SpinSites map[string]int
 	live      int
+	ids       int
+	hot       map[string]int
+	Trace     []string
+	waiters   map[uintptr][]*parkEntry // goroutines waiting for a mutex: not schedulable until it is released
 	done      chan struct{}
 }
 
 var sched atomic.Pointer[Scheduler]
+
+// TraceOn records every scheduling decision with the whole parked set (debugging aid).
+var TraceOn bool
 
 func goid() int64 {
 	var buf [64]byte
@@ -85,7 +92,7 @@ func goid() int64 {
 
 // Start installs a scheduler; the calling goroutine becomes the root ("m"). Must be called inside a bubble.
 func Start(seed uint64, maxSteps int) *Scheduler {
-	s := &Scheduler{seed: seed, byGoid: map[int64]*gInfo{}, MaxSteps: maxSteps, kick: make(chan struct{}, 1), quit: make(chan struct{}), logH: sha256.New(), SpinSites: map[string]int{}, done: make(chan struct{})}
+	s := &Scheduler{seed: seed, byGoid: map[int64]*gInfo{}, MaxSteps: maxSteps, kick: make(chan struct{}, 1), quit: make(chan struct{}), logH: sha256.New(), SpinSites: map[string]int{}, done: make(chan struct{}), waiters: map[uintptr][]*parkEntry{}, hot: map[string]int{}}
 	s.root = &gInfo{id: "m", heldR: map[uintptr]int{}, heldW: map[uintptr]int{}}
 	s.byGoid[goid()] = s.root
 	sched.Store(s)
@@ -99,6 +106,10 @@ func (s *Scheduler) Stop() {
 	s.mu.Lock()
 	ps := s.parked
 	s.parked = nil
+	for _, ws := range s.waiters {
+		ps = append(ps, ws...)
+	}
+	s.waiters = map[uintptr][]*parkEntry{}
 	s.mu.Unlock()
 	for _, e := range ps {
 		close(e.wake)
@@ -157,6 +168,16 @@ func (s *Scheduler) loop() {
 		s.parked = append(s.parked[:idx], s.parked[idx+1:]...)
 		s.Step++
 		fmt.Fprintf(s.logH, "%d:%s@%s|%d\n", s.Step, e.g.id, e.site, len(s.parked))
+		if TraceOn {
+			names := make([]string, 0, len(s.parked))
+			for _, p := range s.parked {
+				names = append(names, p.g.id+"@"+p.site)
+			}
+			s.Trace = append(s.Trace, fmt.Sprintf("%d pick %s@%s rest=%v", s.Step, e.g.id, e.site, names))
+		}
+		if s.Step > s.MaxSteps*3/4 {
+			s.hot[e.site]++ // where the last quarter of the budget went
+		}
 		if s.Step > s.MaxSteps {
 			s.Exhausted = true
 			s.mu.Unlock()
@@ -166,6 +187,10 @@ func (s *Scheduler) loop() {
 			s.mu.Lock()
 			ps := s.parked
 			s.parked = nil
+			for _, ws := range s.waiters {
+				ps = append(ps, ws...)
+			}
+			s.waiters = map[uintptr][]*parkEntry{}
 			s.mu.Unlock()
 			for _, p := range ps {
 				close(p.wake)
@@ -258,7 +283,57 @@ func ptrOf(m interface{}) uintptr {
 	return 0
 }
 
-// LockW acquires m for writing; under the scheduler it never blocks on the mutex (TryLock + yield).
+// waitFor parks the goroutine until somebody releases the mutex p (it is not schedulable meanwhile, so a holder
+// that sleeps on the fake clock does not keep the scheduler busy).
+func (s *Scheduler) waitFor(p uintptr, g *gInfo, site string) {
+	if s.stopping.Load() {
+		if g != s.root {
+			runtime.Goexit()
+		}
+		return
+	}
+	e := &parkEntry{g: g, site: site + ":wait", wake: make(chan struct{})}
+	s.mu.Lock()
+	s.waiters[p] = append(s.waiters[p], e)
+	s.SpinSites[site]++
+	s.mu.Unlock()
+	<-e.wake
+	if s.stopping.Load() && g != s.root {
+		runtime.Goexit()
+	}
+}
+
+// released makes the waiters of mutex p schedulable again.
+func (s *Scheduler) released(p uintptr) {
+	s.mu.Lock()
+	ws := s.waiters[p]
+	delete(s.waiters, p)
+	s.parked = append(s.parked, ws...)
+	s.mu.Unlock()
+	if len(ws) > 0 {
+		select {
+		case s.kick <- struct{}{}:
+		default:
+		}
+	}
+}
+
+// Waiting lists the sites of goroutines that still wait for a mutex (at the end of a run: a deadlock, or a lock
+// leaked by a goroutine that died holding it).
+func (s *Scheduler) Waiting() []string {
+	s.mu.Lock()
+	defer s.mu.Unlock()
+	var out []string
+	for _, ws := range s.waiters {
+		for _, e := range ws {
+			out = append(out, e.g.id+"@"+e.site)
+		}
+	}
+	sort.Strings(out)
+	return out
+}
+
+// LockW acquires m for writing; under the scheduler it never blocks on the mutex itself.
 func LockW(m sync.Locker, site string) {
 	s := sched.Load()
 	if s == nil {
@@ -268,15 +343,11 @@ func LockW(m sync.Locker, site string) {
 	tl := m.(tryLocker)
 	Yield(site)
 	g := s.cur()
+	p := ptrOf(m)
 	for !tl.TryLock() {
-		g.spins++
-		s.mu.Lock()
-		s.SpinSites[site]++
-		s.mu.Unlock()
-		Yield(site + ":spin")
+		s.waitFor(p, g, site)
 	}
-	g.spins = 0
-	g.heldW[ptrOf(m)]++
+	g.heldW[p]++
 }
 
 // LockR acquires m for reading.
@@ -288,24 +359,22 @@ func LockR(m *sync.RWMutex, site string) {
 	}
 	Yield(site)
 	g := s.cur()
+	p := ptrOf(m)
 	for !m.TryRLock() {
-		g.spins++
-		s.mu.Lock()
-		s.SpinSites[site]++
-		s.mu.Unlock()
-		Yield(site + ":spin")
+		s.waitFor(p, g, site)
 	}
-	g.spins = 0
-	g.heldR[ptrOf(m)]++
+	g.heldR[p]++
 }
 
 func UnlockW(m sync.Locker, site string) {
 	m.Unlock()
 	if s := sched.Load(); s != nil {
 		g := s.cur()
-		if p := ptrOf(m); g.heldW[p] > 0 {
+		p := ptrOf(m)
+		if g.heldW[p] > 0 {
 			g.heldW[p]--
 		}
+		s.released(p)
 	}
 }
 
@@ -313,9 +382,11 @@ func UnlockR(m *sync.RWMutex, site string) {
 	m.RUnlock()
 	if s := sched.Load(); s != nil {
 		g := s.cur()
-		if p := ptrOf(m); g.heldR[p] > 0 {
+		p := ptrOf(m)
+		if g.heldR[p] > 0 {
 			g.heldR[p]--
 		}
+		s.released(p)
 	}
 }
 
@@ -343,3 +414,37 @@ func MapWrite(site string) {
 
 // Live is the number of goroutines started through Go that have not finished.
 func (s *Scheduler) Live() int { s.mu.Lock(); defer s.mu.Unlock(); return s.live }
+
+// ID replaces an identifier drawn from crypto/rand by the next element of a per-run sequence (scheduler active only).
+func ID[T ~string](orig T) T {
+	s := sched.Load()
+	if s == nil {
+		return orig
+	}
+	s.mu.Lock()
+	s.ids++
+	n := s.ids
+	s.mu.Unlock()
+	return T(fmt.Sprintf("0x%032x", n))
+}
+
+// Reset uninstalls the scheduler without waiting for it (after a bubble that ended in a deadlock).
+func Reset() { sched.Store(nil) }
+
+// HotSite names the scheduling point that consumed most of the last quarter of the step budget.
+func (s *Scheduler) HotSite() string {
+	s.mu.Lock()
+	defer s.mu.Unlock()
+	best, n := "none", 0
+	keys := make([]string, 0, len(s.hot))
+	for k := range s.hot {
+		keys = append(keys, k)
+	}
+	sort.Strings(keys)
+	for _, k := range keys {
+		if s.hot[k] > n {
+			best, n = k, s.hot[k]
+		}
+	}
+	return best
+}
